@@ -847,13 +847,20 @@ def _validate_result(method_name: str, value: object, result_type: object) -> No
         raise TypeError(f"{method_name}() expected a non-None return value but got None")
 
 
-def _drain_stream(reader: ValidatedReader) -> None:
-    """Consume remaining batches so the IPC EOS marker is read."""
+def _drain_stream(reader: ValidatedReader, *, shm: ShmSegment | None = None) -> None:
+    """Consume remaining batches so the IPC EOS marker is read.
+
+    When *shm* is given, shm pointer batches met on the way are resolved and
+    released: a drained batch never reaches a caller who could free its region.
+    """
     while True:
         try:
-            reader.read_next_batch()
+            batch, custom_metadata = reader.read_next_batch_with_custom_metadata()
         except StopIteration:
             return
+        _, _, release_fn = resolve_shm_batch(batch, custom_metadata, shm)
+        if release_fn is not None:
+            release_fn()
 
 
 def _write_stream_header(
@@ -1093,7 +1100,7 @@ def _read_unary_response(
         # RpcError from the server, or an exception raised by the caller's
         # on_log callback: consume the rest of the response so the next call on
         # this connection does not read it as its own.
-        _drain_stream(reader)
+        _drain_stream(reader, shm=shm)
         raise
     try:
         _drain_stream(reader)
